@@ -36,6 +36,7 @@ package main
 import (
 	"fmt"
 	"io"
+	"os"
 	"strings"
 
 	"verifharness/lib"
@@ -958,7 +959,9 @@ func main() {
 	for _, f := range forms {
 		loadCase(out, fmt.Sprintf("longdigest.%c", f), f, false, long, lib.LkSplit([]byte{0x01}), "eof")
 	}
-	bigCases(out, thorough)
+	if os.Getenv("LKBIG") != "0" { // (timing aid: LKBIG=0 leaves the large blocks out)
+		bigCases(out, thorough)
+	}
 	// NodeReifier scenarios: parents linking to groups of corpus blocks
 	for gi := 0; gi+3 <= len(blocks) && gi < 3*12; gi += 3 {
 		reifyCases(out, r.Fork(), gi/3, blocks[gi:gi+3], thorough)
